@@ -1,6 +1,6 @@
 \* the design WITHOUT doubling of the wrap character and without the NoWrap restriction: TLC must
 \* find a counterexample to ParsedEqualsGrid (guards the invariants against vacuity)
-CONSTANTS NSheets = 1 MaxR = 2 MaxC = 2 MaxCells = 1 FreeLen = 0 Escape = FALSE Record = FALSE
+CONSTANTS NSheets = 1 MaxR = 2 MaxC = 2 MaxCells = 1 FreeLen = 0 Escape = FALSE Overwrite = FALSE Record = FALSE
 CONSTANTS Values <- PaletteValues FreeAlphabet <- NoFree
 SPECIFICATION Spec
 INVARIANTS ParsedEqualsGrid
